@@ -1075,6 +1075,19 @@ func (s *Store) StartReleaseRound() *Task {
 	return t
 }
 
+// Close lets the store's helper goroutine (the single release goroutine of
+// the harness-driven syncer steps) exit, so that a store a check is done with
+// can be garbage collected together with its media. A release round that is
+// still outstanding is left alone.
+func (s *Store) Close() {
+	s.relMu.Lock()
+	defer s.relMu.Unlock()
+	if s.relReq != nil && (s.relTask == nil || s.relTask.Finished()) {
+		close(s.relReq)
+		s.relReq = nil
+	}
+}
+
 // PumpRelease processes pending block releases to completion (gates open).
 func (s *Store) PumpRelease() {
 	for i := 0; i < 8 && s.PBL != nil && s.ReleasePending(); i++ {
